@@ -34,7 +34,7 @@ Definition buf_ops (cap : nat) : InputOps bufin := {|
 |}.
 
 Definition run_buf (cap : nat) (s : list N) : list (event * span) * pend :=
-  let F := (length s + 10)%nat in
+  let F := (2 * length s + 10)%nat in
   let '(toks, se) := scan_all (buf_ops cap) F (4 * F + 20) (init_sc {| b_buf := []; b_rest := s |}) [] in
   let p := {| p_toks := toks; p_token := None; p_states := []; p_state := SStreamStart;
               p_anchors := []; p_anchor_id := 1%N; p_tags := []; p_keep_tags := false |} in
